@@ -213,7 +213,14 @@ static Boolean IncCurrCodeFill(struct sLayoutCtx* pCtx) {
     } else if (!IncMaxCodeLen(pCtx, 1)) {
         return False;
     } else {
-        WAsmCode[pCtx->CurrCodeFill.FullWordCnt] = 0;
+        /* clear the unit that gets filled next - a byte or a word, depending on the
+           segment's granularity */
+
+        if (pCtx->FullWordSize == 1) {
+            BAsmCode[pCtx->CurrCodeFill.FullWordCnt] = 0;
+        } else {
+            WAsmCode[pCtx->CurrCodeFill.FullWordCnt] = 0;
+        }
         return True;
     }
 }
